@@ -6,8 +6,12 @@ src = json.load(open(os.path.join(R, "manifest_src.json")))
 m = json.load(open(os.path.join(R, "MANIFEST.json")))
 props = [json.loads(l)["id"] for l in open(os.path.join(R, "properties.jsonl"))]
 checks = []
+claims = {}
 for pid in props:
-    c = src["claims"].get(pid)
+    cp = os.path.join(R, "claims", pid + ".json")
+    if os.path.exists(cp): claims[pid] = json.load(open(cp))
+for pid in props:
+    c = claims.get(pid)
     if not c: continue
     checks.append({
         "property_id": pid,
@@ -22,7 +26,7 @@ for pid in props:
     })
 m["checks"] = checks
 m["engines"][0]["serves_properties"] = [c["property_id"] for c in checks]
-m["not_applicable"] = [{"property_id": p, "reason": src["not_applicable"].get(p, "not yet claimed: machinery for this property is still being built (see DESIGN.md §7)")} for p in props if p not in src["claims"]]
+m["not_applicable"] = [{"property_id": p, "reason": src["not_applicable"].get(p, "not yet claimed: machinery for this property is still being built (see DESIGN.md §7)")} for p in props if p not in claims]
 m["hooks"]["source_commits"] = src.get("hook_commits", [])
 json.dump(m, open(os.path.join(R, "MANIFEST.json"), "w"), indent=1)
 print("claimed:", [c["property_id"] for c in checks])
